@@ -141,6 +141,21 @@ func c15Cases(cfg vlib.Cfg) []*c15Spec {
 			sp.Hists[1].Class = "m1"
 			c15Renumber(sp)
 		}
+		if i%80 == 10 {
+			// a signalled microtask whose done() comes late (6.5 s) while the limit is
+			// reached and further submissions with 30 s max delays are waiting
+			sp.Limit = []int{2, 3}[(i/80)%2]
+			ls := &c15Hist{Class: "longsignal", Submitters: 1}
+			ls.Tasks = append(ls.Tasks, &c15Task{Mod: 0, Variant: "sig", Prio: vlib.Pick(r, "med", "low"), RunUs: 6500000, MaxDelayMs: c15BigDelayMs, DoneCalls: 2, Phase: 5})
+			for k := 0; k < sp.Limit-1; k++ {
+				ls.Tasks = append(ls.Tasks, &c15Task{Mod: k % sp.Mods, Variant: "run", Prio: "med", MaxDelayMs: c15BigDelayMs, Phase: 4})
+			}
+			for k := 0; k < 4; k++ {
+				ls.Tasks = append(ls.Tasks, &c15Task{Mod: r.Intn(sp.Mods), Variant: vlib.Pick(r, "start", "run"), Prio: vlib.Pick(r, "med", "low"), RunUs: 100, MaxDelayMs: c15BigDelayMs, Phase: 6})
+			}
+			sp.Hists = append(sp.Hists, ls)
+			c15Renumber(sp)
+		}
 		sp.ParkCheck = sp.GoMaxProcs == 0 && i%4 == 1
 		sp.Restart = sp.GoMaxProcs == 0 && i%8 == 6
 		if i%4 == 3 && sp.GoMaxProcs == 0 {
@@ -248,6 +263,10 @@ type c15H struct {
 	prepGate chan struct{}
 	prepWg   sync.WaitGroup
 
+	preWg        sync.WaitGroup // microtasks submitted before modules.Start()
+	preN         int
+	preUncleared atomic.Int64
+
 	firstTimeoutT   atomic.Int64 // unix nanos of the first modules.stop.timeout hit
 	firstTimeoutMod atomic.Value // module name of it
 
@@ -339,6 +358,7 @@ func c15Child(dir string, raw []byte) {
 		}
 		h.prb.Enable()
 	}
+	h.preStart()
 	if err := modules.Start(); err != nil {
 		h.b.Inconclusive("case %d: modules.Start failed: %v", sp.Case, err)
 		h.b.Finish(dir)
@@ -351,16 +371,10 @@ func c15Child(dir string, raw []byte) {
 	if st := modules.GetStatus(); st == nil || st.Config.MicroTasksThreshhold != sp.Limit {
 		h.b.Violation("C15:limit-not-configured", fmt.Sprintf("SetMaxConcurrentMicroTasks(%d) but GetStatus reports a different threshold", sp.Limit), map[string]any{"spec_limit": sp.Limit})
 	}
-	ok := true
-	{
+	ok := h.judgePreStart()
+	if ok {
 		// (prep-started microtasks finished in the first life of w0)
-		for dl := time.Now().Add(30 * time.Second); h.granted.Load() != h.submitted.Load() || h.concluded.Load() != h.expConcl.Load(); {
-			if time.Now().After(dl) {
-				break
-			}
-			time.Sleep(100 * time.Microsecond)
-		}
-		ok = h.moduleCountsZero("after-first-start")
+		ok = h.settle("after-first-start") && h.moduleCountsZero("after-first-start")
 	}
 	for i, hist := range sp.Hists {
 		if !ok {
@@ -521,12 +535,8 @@ func (h *c15H) restartCheck() bool {
 	_ = modules.ManageModules() // starts w0 again
 	close(gate)
 	wg.Wait()
-	for dl := time.Now().Add(30 * time.Second); h.granted.Load() != h.submitted.Load() || h.concluded.Load() != h.expConcl.Load(); {
-		if time.Now().After(dl) {
-			h.b.Inconclusive("case %d: restart check: grant/conclusion counts did not settle (%d/%d, %d/%d)", sp.Case, h.granted.Load(), h.submitted.Load(), h.concluded.Load(), h.expConcl.Load())
-			return false
-		}
-		time.Sleep(100 * time.Microsecond)
+	if !h.settle("restart") {
+		return false
 	}
 	h.b.Count("restart_checks", 1)
 	return h.moduleCountsZero("restart")
@@ -795,6 +805,8 @@ func (h *c15H) runHist(hi int, hist *c15Hist) bool {
 	gate := make(chan struct{})
 	var holdersIn atomic.Int32
 
+	longsig := hist.Class == "longsignal"
+	var lateDone atomic.Bool
 	body := func(t *c15Task) {
 		if t.Phase == 1 { // slot holder: not part of the gauge, stays until the gate opens
 			holdersIn.Add(1)
@@ -806,6 +818,13 @@ func (h *c15H) runHist(hi int, hist *c15Hist) bool {
 			cls = "hp"
 		}
 		h.rec("begin", cls, t.ID)
+		if t.Phase == 4 { // gated, part of the gauge
+			holdersIn.Add(1)
+			<-gate
+		}
+		if t.Phase == 5 {
+			defer lateDone.Store(true)
+		}
 		if t.Hold {
 			if int(holdIn.Add(1)) == holds {
 				close(holdRelease)
@@ -945,9 +964,38 @@ func (h *c15H) runHist(hi int, hist *c15Hist) bool {
 		}
 		close(gate)
 	}
+	if longsig {
+		// scripted: the late signalled microtask and the gated holders take all slots,
+		// the waiters queue up; the gate opens when the late one has called done()
+		each := func(p int) {
+			for _, t := range hist.Tasks {
+				if t.Phase == p {
+					t := t
+					swg.Add(1)
+					go func() { defer swg.Done(); submit(t) }()
+				}
+			}
+		}
+		each(5)
+		for dl := time.Now().Add(20 * time.Second); time.Now().Before(dl); {
+			if h.execs[hist.Tasks[0].ID].Load() > 0 {
+				break
+			}
+			time.Sleep(200 * time.Microsecond)
+		}
+		each(4)
+		for dl := time.Now().Add(20 * time.Second); int(holdersIn.Load()) < sp.Limit-1 && time.Now().Before(dl); {
+			time.Sleep(200 * time.Microsecond)
+		}
+		each(6)
+		for dl := time.Now().Add(30 * time.Second); !lateDone.Load() && time.Now().Before(dl); {
+			time.Sleep(time.Millisecond)
+		}
+		close(gate)
+	}
 	// saturation phase: the holding tasks are submitted from their own goroutines
 	for _, t := range hist.Tasks {
-		if overflow {
+		if overflow || longsig {
 			break
 		}
 		if t.Hold {
@@ -956,7 +1004,7 @@ func (h *c15H) runHist(hi int, hist *c15Hist) bool {
 			go func() { defer swg.Done(); submit(t) }()
 		}
 	}
-	for s := 0; s < hist.Submitters && !overflow; s++ {
+	for s := 0; s < hist.Submitters && !overflow && !longsig; s++ {
 		s := s
 		swg.Add(1)
 		go func() {
@@ -1055,7 +1103,7 @@ func (h *c15H) runHist(hi int, hist *c15Hist) bool {
 		}
 	}
 	h.b.Max("max_concurrent_medium_low_seen", int64(maxMl))
-	if hist.Class == "m1" {
+	if hist.Class == "m1" || longsig {
 		if mdHits > 0 {
 			h.b.Count("m1_histories_skipped_maxdelay_expired", 1)
 		} else {
@@ -1133,6 +1181,9 @@ func (h *c15H) fence(hi int, hist *c15Hist) bool {
 		h.drainMode = true
 	}
 	overflow := h.drainMode
+	if !overflow && !h.settle(hist.Class) {
+		return false
+	}
 	for (!overflow && h.granted.Load() != h.submitted.Load()) || h.concluded.Load() != h.expConcl.Load() {
 		// both expectations are final here (every submission of the history was made),
 		// the observed counts only grow: an excess cannot go away
@@ -1221,6 +1272,150 @@ func (h *c15H) fence(hi int, hist *c15Hist) bool {
 				return false
 			}
 		}
+	}
+	return true
+}
+
+// settle waits until every clearance request the harness knows of was answered and every
+// microtask concluded. When the conclusions are complete but answers are missing for two
+// seconds, unclearedCheck looks for microtasks that ran without a clearance.
+func (h *c15H) settle(where string) bool {
+	checked := false
+	t0 := time.Now()
+	for h.granted.Load() != h.submitted.Load() || h.concluded.Load() != h.expConcl.Load() {
+		if c, e := h.concluded.Load(), h.expConcl.Load(); c > e {
+			h.b.Violation("C15:M3:concluded-more-than-once:"+where, fmt.Sprintf("%d microtask conclusions observed for %d microtasks: a microtask was concluded (counters decremented) more than once", c, e),
+				map[string]any{"spec": h.specNoTasks(), "counts": h.counts()})
+			return false
+		}
+		if g, sb := h.granted.Load(), h.submitted.Load(); g > sb {
+			h.b.Violation("C15:M3:more-grants-than-requests:"+where, fmt.Sprintf("%d clearances granted for %d requests", g, sb), map[string]any{"spec": h.specNoTasks()})
+			return false
+		}
+		if !checked && time.Since(t0) > 2*time.Second && h.concluded.Load() == h.expConcl.Load() {
+			checked = true
+			if !h.unclearedCheck(where) {
+				return false
+			}
+		}
+		if time.Since(t0) > 60*time.Second {
+			h.b.Inconclusive("case %d (%s): after 60s of quiescence %d clearances granted for %d medium/low submissions, %d conclusions for %d microtasks", h.sp.Case, where,
+				h.granted.Load(), h.submitted.Load(), h.concluded.Load(), h.expConcl.Load())
+			return false
+		}
+		time.Sleep(200 * time.Microsecond)
+	}
+	return true
+}
+
+// unclearedCheck: all microtasks have concluded, yet fewer clearances were granted than
+// medium/low microtasks were submitted (outside the overflow classes every submission
+// queues a request and the scheduler answers each request exactly once, also the stale
+// ones of functions that started through their max delay). The two queues are drained
+// with a low- and then a medium-priority microtask; inside the function of the second
+// one every earlier request has been answered and counted by the grant hook. If the
+// grants still do not cover the earlier submissions, some function ran without a
+// clearance (and, since no request of it is left, without waiting for one).
+func (h *c15H) unclearedCheck(where string) bool {
+	subPrev := h.submitted.Load()
+	big := c15BigDelayMs * time.Millisecond
+	h.submitted.Add(2)
+	h.expConcl.Add(2)
+	_ = h.prb.RunLowPriorityMicroTask("drain", big, func(context.Context) error { return nil })
+	var gObs int64
+	_ = h.prb.RunMicroTask("drain", big, func(context.Context) error { gObs = h.granted.Load(); return nil })
+	if subPrev+1 > gObs {
+		h.b.Violation("C15:M1:started-without-clearance", fmt.Sprintf("%d medium/low-priority microtasks were submitted and have run, but only %d clearance requests were answered (%d max-delay expiries): at least %d started without a clearance",
+			subPrev, gObs-1, h.maxdelay.Load(), subPrev+1-gObs), map[string]any{"spec": h.specNoTasks(), "where": where})
+		return false
+	}
+	return true
+}
+
+// preStart submits limit+3 medium/low microtasks before modules.Start() is called, i.e.
+// before the microtask scheduler runs; they stay for a few milliseconds each. They have
+// to wait for the scheduler and then obey the limit like all others.
+func (h *c15H) preStart() {
+	sp := h.sp
+	k := sp.Limit + 3
+	if k > 12 {
+		k = 12
+	}
+	h.preN = k
+	big := c15BigDelayMs * time.Millisecond
+	var begun atomic.Int32
+	allIn := make(chan struct{})
+	body := func(id int) {
+		h.rec("begin", "ml", -id)
+		b := int64(begun.Add(1))
+		if g, d := h.granted.Load(), h.maxdelay.Load(); b > g+d+1 {
+			// at most one grant can be ahead of its hook event
+			h.preUncleared.Store(b - g - d - 1)
+		}
+		if int(b) == k {
+			close(allIn)
+		}
+		select {
+		case <-allIn:
+		case <-time.After(5 * time.Millisecond):
+		}
+		h.rec("end", "ml", -id)
+	}
+	for i := 1; i <= k; i++ {
+		i := i
+		m := h.mods[i%len(h.mods)]
+		h.submitted.Add(1)
+		h.expConcl.Add(1)
+		h.preWg.Add(1)
+		fn := func(context.Context) error { defer h.preWg.Done(); body(i); return nil }
+		switch i % 5 {
+		case 0:
+			m.StartMicroTask("prestart", big, fn)
+		case 1:
+			m.StartLowPriorityMicroTask("prestart", big, fn)
+		case 2:
+			go func() { _ = m.RunMicroTask("prestart", big, fn) }()
+		case 3:
+			go func() { _ = m.RunLowPriorityMicroTask("prestart", big, fn) }()
+		default:
+			go func() {
+				done := m.SignalMicroTask(big)
+				_ = fn(nil)
+				done()
+			}()
+		}
+	}
+	time.Sleep(2 * time.Millisecond) // (let them reach the clearance queues; nothing depends on it)
+}
+
+// judgePreStart: the microtasks submitted before Start have all run; none may have started
+// without a clearance, and never more than the limit at a time.
+func (h *c15H) judgePreStart() bool {
+	h.preWg.Wait()
+	h.b.Count("microtasks_submitted_before_start", int64(h.preN))
+	h.emu.Lock()
+	evs := append([]c15Ev(nil), h.evs...)
+	h.emu.Unlock()
+	ml, maxMl := 0, 0
+	for _, e := range evs {
+		if e.Kind == "begin" {
+			ml++
+		} else {
+			ml--
+		}
+		if ml > maxMl {
+			maxMl = ml
+		}
+	}
+	if n := h.preUncleared.Load(); n > 0 {
+		h.b.Violation("C15:M1:started-without-clearance", fmt.Sprintf("microtasks submitted before modules.Start(): %d more medium/low-priority functions had begun than clearances were granted or max delays had expired", n),
+			map[string]any{"spec": h.specNoTasks(), "where": "before-start"})
+		return false
+	}
+	if maxMl > h.sp.Limit && h.maxdelay.Load() == 0 {
+		h.b.Violation("C15:M1:limit-exceeded:before-scheduler-start", fmt.Sprintf("%d medium/low-priority microtasks submitted before modules.Start() executed at the same time with limit %d (no high-priority microtask, no max delay expired)", maxMl, h.sp.Limit),
+			map[string]any{"spec": h.specNoTasks(), "limit": h.sp.Limit, "observed": maxMl, "events": firstEvs(evs, 30)})
+		return false
 	}
 	return true
 }
@@ -1319,12 +1514,8 @@ func (h *c15H) parkCheck() bool {
 		close(gate)
 		wg.Wait()
 		h.forceConclDelay.Store(false)
-		for dl := time.Now().Add(30 * time.Second); h.granted.Load() != h.submitted.Load() || h.concluded.Load() != h.expConcl.Load(); {
-			if time.Now().After(dl) {
-				h.b.Inconclusive("case %d: park check: grant/conclusion counts did not settle", sp.Case)
-				return false
-			}
-			time.Sleep(100 * time.Microsecond)
+		if !h.settle("parkcheck") {
+			return false
 		}
 		smp, ok := h.probe(-1)
 		if !ok {
